@@ -2,8 +2,8 @@ import UmProofs.BrokerScaleQuota
 /-!
 # C10 — `add_cluster` creates a balanced cluster (`create_slots` arithmetic)
 -/
-namespace Um.Broker
-open Um Um.Slots
+namespace Um.Broker.Scale
+open Um Um.Slots Um.Broker
 
 theorem createSlots_ok (av rem idx curr : Nat) (hav : 1 ≤ av) :
     createSlots av rem idx curr =
@@ -13,9 +13,6 @@ theorem createSlots_ok (av rem idx curr : Nat) (hav : 1 ≤ av) :
     simp; omega
   simp only [this, Bool.false_eq_true, if_false, fromSingle]
   rw [normRange_of_wf (by show curr ≤ curr + av + (if idx < rem then 1 else 0) - 1; omega)]
-
-/-- freshly created chunks carry no migration entries -/
-def NoMigs (l : List Chunk) : Prop := ∀ ch ∈ l, ch.mig0 = [] ∧ ch.mig1 = []
 
 theorem toChunksWithSlots_spec (m : Nat) (hm : m ≤ SLOT_NUM) (hm0 : 0 < m) :
     ∀ (arr : List (ProxyRes × ProxyRes)) (i curr : Nat),
@@ -181,4 +178,4 @@ theorem addCluster_balanced {s s' : Store} {name : String} {nodeNum : Nat} {cfg 
             all_goals cases hdo
           all_goals cases h
 
-end Um.Broker
+end Um.Broker.Scale
